@@ -183,6 +183,7 @@ expressions = [(e1, np.array([[0.25], [0.5]]))]
 """,
     }
     expect = {"equalforms": (["a", "L", "P", "M"], []), "defaults": (["a", "L"], ["e1"])}
+    outstem = {"equalforms": None, "defaults": "generated_code"}  # -o changes the file names only; the prefix stays the UFL file stem
     with tempfile.TemporaryDirectory() as d:
         for stem, text in files.items():
             path = os.path.join(d, stem + ".py")
@@ -190,9 +191,10 @@ expressions = [(e1, np.array([[0.25], [0.5]]))]
                 fh.write(text)
             name = f"ffcx {stem}.py: every named object is declared in the header and defined in the source under its alias"
             try:
-                rc = M.main([path, "-d", d])
-                hdr = open(os.path.join(d, stem + ".h")).read()
-                src = open(os.path.join(d, stem + ".c")).read()
+                o = outstem[stem]
+                rc = M.main(["-i", path, "-d", d] + (["-o", o] if o else []))
+                hdr = open(os.path.join(d, (o or stem) + ".h")).read()
+                src = open(os.path.join(d, (o or stem) + ".c")).read()
             except Exception as e:  # noqa: BLE001
                 rep.violation(f"main:{stem}", name + f" fails: {type(e).__name__}: {e}", dict(obligation=name, file=text))
                 continue
@@ -943,7 +945,10 @@ def c13_compute_signature(rep, tier, seed):
              ("relative 1e-13 perturbation", base, base * (1 + 1e-13)),
              ("one interior point of a 600-point set moved by 0.1", big, np.where(np.arange(1200).reshape(600, 2) == 601, big + 0.1, big)),
              ("points in another order", base, base[::-1].copy()),
-             ("one point more", base, np.vstack([base, [[0.3, 0.3]]]))]
+             ("one point more", base, np.vstack([base, [[0.3, 0.3]]])),
+             # memory layout: a Fortran-ordered array and the C-ordered array with the same BUFFER are different point sets
+             ("Fortran-ordered array vs the C-ordered array with the same buffer", np.asfortranarray(base),
+              np.ascontiguousarray(np.asfortranarray(base).ravel(order="K").reshape(base.shape)))]
     for what, p, q in cases:
         sa = naming.compute_signature([(e, p)], "t")
         sb = naming.compute_signature([(e, q)], "t")
@@ -955,8 +960,13 @@ def c13_compute_signature(rep, tier, seed):
                           dict(obligation=nm, points_a=repr(p[:3]), points_b=repr(q[:3]), max_abs_difference=float(np.max(np.abs(p - q))) if p.shape == q.shape else None,
                                how_to_replay="ffcx.naming.compute_signature([(expr, points)], tag) for both point sets"))
     same = naming.compute_signature([(e, base)], "t") == naming.compute_signature([(e, base.copy())], "t")
+    # ... and the same point set gets the same name whatever its memory layout (C order, Fortran order, a strided view)
+    wide = np.zeros((3, 4))
+    wide[:, ::2] = base
+    layouts = [np.asfortranarray(base), wide[:, ::2], np.array(base.tolist())]
+    same = same and all(naming.compute_signature([(e, q)], "t") == naming.compute_signature([(e, base)], "t") for q in layouts)
     (rep.ob("compute_signature is a function of the point values (equal arrays, equal name)", "proved", "runtime-contract", "bounded") if same else
-     rep.violation("sig:points:unstable", "equal point arrays give different signatures", {}))
+     rep.violation("sig:points:unstable", "equal point sets (copy, Fortran order, strided view) give different signatures", {}))
     ident = re.compile(r"[A-Za-z_][A-Za-z0-9_]*\Z")
     names = [naming.form_name(forms[0], 0, "pre"), naming.integral_name(forms[0], "cell", 0, (1, 2), "pre"),
              naming.integral_name(forms[0], "cell", 0, "otherwise", "pre"), naming.expression_name((e, base), "pre")]
@@ -1535,22 +1545,28 @@ print(json.dumps(out))
 def c03_table_predicates(rep, tier, seed):
     """The table classifiers look at EVERY entry: a table that deviates in a single entry (any permutation, entity, point, dof)
     from the permutation-/point-/entity-independent pattern is not classified as such; tables that follow the pattern are.
-    Exhaustive over all single-entry positions of a [3 perms][3 entities][3 points][2 dofs] table, on the real functions."""
+    Exhaustive over all single-entry positions of [perms][entities][points][dofs] tables of extents (3,3,3,2), (3,3,1,2), (2,2,1,1), (3,1,3,2),
+    on the real functions."""
     import itertools
 
     import numpy as np
 
     import ffcx.ir.elementtables as ET
 
-    shape = (3, 3, 3, 2)
     rng = np.random.default_rng(7)
-    base_perm = np.broadcast_to(rng.random((1,) + shape[1:]) + 0.5, shape).copy()  # same for every permutation
-    base_pw = np.broadcast_to(rng.random((shape[0], shape[1], 1, shape[3])) + 0.5, shape).copy()  # same for every point
-    base_un = np.broadcast_to(rng.random((shape[0], 1, shape[2], shape[3])) + 0.5, shape).copy()  # same for every entity
-    cases = [("is_permuted_table", ET.is_permuted_table, base_perm, False, lambda pos: pos[0] >= 1),
-             ("is_piecewise_table", ET.is_piecewise_table, base_pw, True, lambda pos: pos[0] == 0 and pos[2] >= 1),
-             ("is_uniform_table", ET.is_uniform_table, base_un, True, lambda pos: pos[0] == 0 and pos[1] >= 1)]
-    for name, f, base, base_value, relevant in cases:
+    cases = []
+    # also degenerate extents: one point (custom one-point rules), one entity, one dof
+    for shape in ((3, 3, 3, 2), (3, 3, 1, 2), (2, 2, 1, 1), (3, 1, 3, 2)):
+        base_perm = np.broadcast_to(rng.random((1,) + shape[1:]) + 0.5, shape).copy()  # same for every permutation
+        base_pw = np.broadcast_to(rng.random((shape[0], shape[1], 1, shape[3])) + 0.5, shape).copy()  # same for every point
+        base_un = np.broadcast_to(rng.random((shape[0], 1, shape[2], shape[3])) + 0.5, shape).copy()  # same for every entity
+        cases.append((f"is_permuted_table{list(shape)}", ET.is_permuted_table, base_perm, False, lambda pos: pos[0] >= 1, shape))
+        if shape[2] > 1:  # a one-point table is by definition not piecewise (nothing can be said about other points)
+            cases.append((f"is_piecewise_table{list(shape)}", ET.is_piecewise_table, base_pw, True, lambda pos: pos[0] == 0 and pos[2] >= 1, shape))
+        if shape[1] > 1:
+            cases.append((f"is_uniform_table{list(shape)}", ET.is_uniform_table, base_un, True, lambda pos: pos[0] == 0 and pos[1] >= 1, shape))
+    shape = (3, 3, 3, 2)
+    for name, f, base, base_value, relevant, shape in cases:
         ok0 = bool(f(base)) == base_value
         nm = f"{name}: a table following the pattern is classified {base_value}"
         (rep.ob(nm, "proved", "exhaustive-finite", "exhaustive") if ok0 else rep.violation(f"table-predicate:{name}:base", nm + " fails", {}))
@@ -1571,6 +1587,7 @@ def c03_table_predicates(rep, tier, seed):
             rep.violation(f"table-predicate:{name}:entry", nm + f" fails for positions [perm][entity][point][dof] = {missed[:4]}",
                           dict(obligation=nm, missed=[list(p) for p in missed[:10]],
                                how_to_replay=f"ffcx.ir.elementtables.{name} on a table that differs from the pattern only at that position"))
+    shape = (3, 3, 3, 2)
     z = np.zeros(shape)
     o = np.ones(shape)
     for name, f, base in (("is_zeros_table", ET.is_zeros_table, z), ("is_ones_table", ET.is_ones_table, o)):
@@ -1653,12 +1670,19 @@ def c19_rejections(rep, tier, seed):
     u, v, f = ufl.TrialFunction(V), ufl.TestFunction(V), ufl.Coefficient(V)
     dP = ufl.Measure("dP", domain=mesh)
     dc = ufl.Measure("dc", domain=mesh)
+    def prism_form(cell):
+        m = ufl.Mesh(basix.ufl.element("Lagrange", cell, 1, shape=(3,)))
+        W = ufl.FunctionSpace(m, basix.ufl.element("Lagrange", cell, 1))
+        return ufl.TrialFunction(W) * ufl.TestFunction(W) * ufl.ds(metadata={"quadrature_rule": "vertex", "quadrature_degree": 1})
+
     cases = {
         "empty form": lambda: 0 * u * v * ufl.dx,
         "vertex integral of a discontinuous element": lambda: ufl.TestFunction(D) * dP,
         "custom integral (dc)": lambda: u * v * dc,
         "negative subdomain id": lambda: u * v * ufl.dx(-3),
         "cell average of a coefficient": lambda: ufl.cell_avg(f) * v * ufl.dx,
+        "vertex quadrature scheme on the facets of a prism (two facet types)": lambda: prism_form("prism"),
+        "vertex quadrature scheme on the facets of a pyramid (two facet types)": lambda: prism_form("pyramid"),
         "facet average of a coefficient": lambda: ufl.facet_avg(f) * v * ufl.ds,
     }
     opts = get_options({})
